@@ -50,6 +50,9 @@ var props = map[string]propCfg{
 	"C15": {Pkg: "checks/c15", Level: "exploration", Passes: []pass{
 		{Name: "race", Race: true, Shards: 16, TimeoutS: 900},
 	}, RaceFiles: []string{`^rpc/core/plugin_manager`, `^rpc/core/invoke_manager`, `^rpc/core/io_manager`}},
+	"C19": {Pkg: "checks/c19", Go: "go1.26", Level: "exploration", Passes: []pass{
+		{Name: "race", Race: true, Shards: 16, TimeoutS: 900},
+	}, RaceFiles: []string{`^rpc/plugins/push/`}},
 	"C14": {Pkg: "checks/c14", Level: "exploration", Passes: []pass{
 		{Name: "race", Race: true, Shards: 48, ShardsThorough: 256, TimeoutS: 900, TZ: []string{"UTC"}},
 		{Name: "plain", Shards: 48, ShardsThorough: 256, TimeoutS: 600, TZ: []string{"UTC"}},
